@@ -248,10 +248,53 @@ func H_arr_map() {
 			e := gv.(vPadElt)
 			vAssert(len(rb) == 6 && int32(uint32(rb[0])|uint32(rb[1])<<8|uint32(rb[2])<<16|uint32(rb[3])<<24) == e.A && uint16(rb[4])|uint16(rb[5])<<8 == e.B, "C16.raw.value")
 		}
+	case 7:
+		// elements of an application-defined (named) integer type through the generic array
+		elts := make([]vLevel, n)
+		for i := range elts {
+			elts[i] = vLevel(vU16("e"))
+		}
+		g, gerr := New(idx, elts)
+		vAssert(gerr == nil && g != nil, "C16.build-ok")
+		if gerr != nil {
+			vAssume(false)
+		}
+		if loaded == 1 {
+			bs, e1 := proto.Marshal(g)
+			g2, e0 := NewEmpty(vLevel(0))
+			vAssert(e0 == nil && g2 != nil, "C16.newempty-ok")
+			if e0 != nil {
+				vAssume(false)
+			}
+			e2 := proto.Unmarshal(bs, g2)
+			vAssert(e1 == nil && e2 == nil, "C16.roundtrip-ok")
+			g = g2
+		}
+		gv, gok := g.Get(probe)
+		vAssert(gok == has, "C16.generic.found")
+		if gok {
+			e, isLevel := gv.(vLevel)
+			vAssert(isLevel, "C16.generic.type")
+			good := true
+			for i := 0; i < n; i++ {
+				good = vAnd(good, vImplies(idx[i] == probe, e == elts[i]))
+			}
+			vAssert(good, "C16.generic.value")
+		} else {
+			vAssert(gv == nil, "C16.generic.nil")
+		}
+		rb, rok := g.GetBytes(probe, 2)
+		vAssert(rok == has, "C16.raw.found")
+		if rok && gok {
+			e, _ := gv.(vLevel)
+			vAssert(len(rb) == 2 && vLevel(uint16(rb[0])|uint16(rb[1])<<8) == e, "C16.raw.value")
+		}
 	}
 	vObserve("has", has)
 	vReach("end")
 }
+
+type vLevel uint16
 
 type vPadElt struct {
 	A int32
